@@ -218,6 +218,19 @@ func (s *scn) genSpecs() {
 		}
 	case "sdsender":
 		s.specs[s.r.Intn(n)].ssender = true
+	case "gatefail":
+		// an earlier runnable fails while the supervisor is inside IsRunning() of a later gate
+		s.specs = make([]spec, 3+s.r.Intn(2))
+		for i := range s.specs {
+			s.specs[i] = spec{exit: "sig", stopBlocks: s.r.Bool()}
+		}
+		s.specs[0].exit = "free"
+		s.specs[0].heldRun = true
+		s.specs[1].stateable = true
+		s.specs[1].heldPoll = true
+		if s.r.Bool() {
+			s.specs[2].stateable = true
+		}
 	}
 	for i := range s.specs {
 		if s.specs[i].exit == "never" {
@@ -597,6 +610,40 @@ func (s *scn) pick(as []action) action {
 	return as[0]
 }
 
+// preludeGatefail: answer the gate's first k-1 polls with false, then, while the k-th IsRunning()
+// call is pending, let runnable 0 fail, wait until its error is queued, and answer true.
+func (s *scn) preludeGatefail() {
+	c1 := s.cores[1]
+	k := 1 + s.r.Intn(4)
+	for p := 1; p <= k; p++ {
+		deadline := time.Now().Add(3 * time.Second)
+		for !c1.PollPending.Load() && time.Now().Before(deadline) {
+			time.Sleep(200 * time.Microsecond)
+		}
+		if !c1.PollPending.Load() {
+			return
+		}
+		if p < k {
+			select {
+			case c1.PollRelease <- false:
+			case <-time.After(time.Second):
+				return
+			}
+			continue
+		}
+		s.quiesce()
+		s.runReleased[0] = true
+		s.cores[0].RunRelease <- s.mkErr(false)
+		s.quiesce()
+		s.readySet[1] = true
+		select {
+		case c1.PollRelease <- true:
+		case <-time.After(time.Second):
+		}
+		s.quiesce()
+	}
+}
+
 func (s *scn) allCallersBack() bool {
 	s.mu.Lock()
 	defer s.mu.Unlock()
@@ -608,6 +655,9 @@ func (s *scn) run() {
 	// let Run() get going before the environment acts (a Shutdown() that overtakes Run()'s first
 	// statement would stop every registered runnable; that ordering is outside the model)
 	s.rec.WaitQuiescent(3 * time.Second)
+	if s.family == "gatefail" {
+		s.preludeGatefail()
+	}
 	steps := 6 + s.r.Intn(18)
 	phase := "startup"
 	trigAt := steps * 2 / 3
@@ -755,7 +805,7 @@ func main() {
 		child(*seed, *family)
 		return
 	}
-	fams := []string{"mixed", "startup", "timeout", "state", "reload", "sdsender", "big"}
+	fams := []string{"mixed", "startup", "timeout", "state", "reload", "sdsender", "big", "gatefail"}
 	type job struct {
 		seed uint64
 		fam  string
